@@ -351,15 +351,20 @@ Proof.
   - apply nd_pixel_any. exact Hin.
 Qed.
 
-(* D6: on the code as found (input_mask > 0) a negative mask value is classified valid *)
+Lemma mask_semantics : mask_semantics_stmt.
+Proof.
+  intros inp win r c nd data ds Hin Ho. unfold ds.
+  rewrite class_at_create by exact Hin. fold nd data.
+  rewrite (nd_pixel_equals nd data r c Ho). unfold spec_class.
+  destruct (existsb _ _); [reflexivity|].
+  destruct (i_mask inp) as [im|]; cbn [option_map]; [|reflexivity].
+  unfold mask_test. destruct (px (read win im) r c =? 0); reflexivity.
+Qed.
+
+(* regression witness of D6 (input_mask > 0 classified a negative mask value as valid) *)
 Definition ex_arr {A} (v : A) : arr A := mkArr 1 1 (fun _ _ => v).
 Definition ex_inp_negmask : inputs :=
   mkIn [ex_arr (SFin 1)] [] (SFin (-9999 # 1)) (Some (ex_arr (-1))) DispNone None None.
-
-Lemma mask_semantics_refuted : ~ mask_semantics_stmt.
-Proof.
-  intros H. specialize (H ex_inp_negmask None 0 0). cbv zeta in H.
-  lapply H; [clear H; intro H; lapply H; [vm_compute; discriminate|] |].
-  - intros a [<-|[]]. reflexivity.
-  - intros a [<-|[]]. cbn. lia.
-Qed.
+Example negative_mask_value_is_invalid :
+  class_at (d_msk (create_dataset ex_inp_negmask None)) 0 0 = PInvalid.
+Proof. reflexivity. Qed.
